@@ -18,6 +18,8 @@ import (
 //   commands:    N arrays of three bulk strings (lengths cycling through Sizes)
 //   big-arrays:  N arrays of Sizes[0] one-byte bulk strings each (millions of elements in total)
 //   null-arrays: N null arrays ("*-1"), accepted as arrays without elements, then a chain of Sizes[0] nested arrays
+//   nested-big:  N times: an array of Sizes[0] bulk strings, then an array of Sizes[0] elements whose second element is
+//                itself an array of Sizes[0] bulk strings (large arrays inside large arrays, after earlier large arrays)
 //   siblings:    one array of N sub-arrays (empty, or pairs), i.e. many array nodes at depth two
 
 type c02Long struct {
@@ -44,7 +46,8 @@ func (c c02Long) String() string {
 	return fmt.Sprintf("%s n=%d sizes=%v seed=%d chunk=%d", c.Pattern, c.N, c.Sizes, c.Seed, c.Chunk)
 }
 
-func evalC02Long(c c02Long) (fl *Failure) {
+// stream builds the byte stream of the case.
+func (c c02Long) stream() ([]byte, *Failure) {
 	if len(c.Sizes) == 0 {
 		c.Sizes = []int{1}
 	}
@@ -89,6 +92,24 @@ func evalC02Long(c c02Long) (fl *Failure) {
 			buf.WriteString("*1\r\n")
 		}
 		bulk(0, 1)
+	case "nested-big":
+		for i := 0; i < c.N; i++ {
+			buf.WriteString("*" + strconv.Itoa(c.Sizes[0]) + "\r\n")
+			for j := 0; j < c.Sizes[0]; j++ {
+				bulk(i+j, 1)
+			}
+			buf.WriteString("*" + strconv.Itoa(c.Sizes[0]) + "\r\n")
+			for j := 0; j < c.Sizes[0]; j++ {
+				if j == 1 {
+					buf.WriteString("*" + strconv.Itoa(c.Sizes[0]) + "\r\n")
+					for k := 0; k < c.Sizes[0]; k++ {
+						bulk(i+k+7, 1)
+					}
+					continue
+				}
+				bulk(i+j+3, 1)
+			}
+		}
 	case "siblings":
 		buf.WriteString("*" + strconv.Itoa(c.N) + "\r\n")
 		for i := 0; i < c.N; i++ {
@@ -101,9 +122,28 @@ func evalC02Long(c c02Long) (fl *Failure) {
 			}
 		}
 	default:
-		return failf("replay|bad-case", "unknown pattern %q", c.Pattern)
+		return nil, failf("replay|bad-case", "unknown pattern %q", c.Pattern)
 	}
-	data := buf.Bytes()
+	return buf.Bytes(), nil
+}
+
+func longPayload(i, n int) []byte {
+	b := make([]byte, n)
+	for j := range b {
+		b[j] = byte('a' + (i+j)%26)
+	}
+	return b
+}
+
+func evalC02Long(c c02Long) (fl *Failure) {
+	if len(c.Sizes) == 0 {
+		c.Sizes = []int{1}
+	}
+	payload := longPayload
+	data, f := c.stream()
+	if f != nil {
+		return f
+	}
 	var sizes []int
 	if c.Chunk > 0 {
 		for off := 0; off < len(data); off += c.Chunk {
@@ -202,6 +242,47 @@ func evalC02Long(c c02Long) (fl *Failure) {
 			for j, e := range es {
 				if s, ok := str(e); !ok || s != string(payload(i+j, 1)) {
 					return wrong(i, fmt.Sprintf("the array that was sent (element %d)", j))
+				}
+			}
+		}
+	case "nested-big":
+		flat := func(m *proto.Message, idx, off int) *Failure {
+			es, ok := elems(m)
+			if !ok || len(es) != c.Sizes[0] {
+				return wrong(idx, fmt.Sprintf("an array of %d elements", c.Sizes[0]))
+			}
+			for j, e := range es {
+				if s, ok := str(e); !ok || s != string(payload(off+j, 1)) {
+					return wrong(idx, fmt.Sprintf("the array that was sent (element %d absent or different)", j))
+				}
+			}
+			return nil
+		}
+		for i := 0; i < c.N; i++ {
+			m, f := next(2 * i)
+			if f != nil {
+				return f
+			}
+			if f := flat(m, 2*i, i); f != nil {
+				return f
+			}
+			m, f = next(2*i + 1)
+			if f != nil {
+				return f
+			}
+			es, ok := elems(m)
+			if !ok || len(es) != c.Sizes[0] {
+				return wrong(2*i+1, fmt.Sprintf("an array of %d elements", c.Sizes[0]))
+			}
+			for j, e := range es {
+				if j == 1 {
+					if f := flat(e, 2*i+1, i+7); f != nil {
+						return f
+					}
+					continue
+				}
+				if s, ok := str(e); !ok || s != string(payload(i+j+3, 1)) {
+					return wrong(2*i+1, fmt.Sprintf("the array that was sent (element %d absent or different)", j))
 				}
 			}
 		}
